@@ -916,6 +916,44 @@ fn main() {
         std::process::exit(if cx.rep.ok() { 0 } else { 1 });
     }
 
+    // ---- primitives and constants of the model against Rust itself ----------------------------------
+    {
+        let rust_ws: Vec<String> = (0..=0x10FFFFu32).filter_map(char::from_u32).filter(|c| c.is_whitespace()).map(|c| (c as u32).to_string()).collect();
+        let m = cx.lean.ask("wslist");
+        cx.rep.case("prim wslist", true);
+        if cx.lean.differs(&m, &rust_ws.join(" ")) {
+            cx.rep.disagree("prim-whitespace", json!("char::is_whitespace over all scalar values"), &rust_ws.join(" "), &m);
+        }
+        for radix in [10u32, 16] {
+            let rd: Vec<String> = (0..=0x10FFFFu32).filter_map(char::from_u32).filter_map(|c| c.to_digit(radix).map(|d| format!("{}:{d}", c as u32))).collect();
+            let m = cx.lean.ask(&format!("digits {radix}"));
+            cx.rep.case(&format!("prim digits {radix}"), true);
+            if cx.lean.differs(&m, &rd.join(" ")) {
+                cx.rep.disagree("prim-to_digit", json!({"radix": radix}), &rd.join(" "), &m);
+            }
+        }
+        let tab = |t: &[(&str, u16)]| t.iter().map(|(n, v)| format!("{n}={v}")).collect::<Vec<_>>().join(",");
+        // Display order (DS, CS, Wildcard) and FromStr order (CS, DS, Wildcard) as the translator extracts them
+        let show = [("DS", ServiceAddr::DAEMON.0), ("CS", ServiceAddr::CONTROL.0), ("Wildcard", ServiceAddr::WILDCARD.0)];
+        let parse = [("CS", ServiceAddr::CONTROL.0), ("DS", ServiceAddr::DAEMON.0), ("Wildcard", ServiceAddr::WILDCARD.0)];
+        for (n, v) in show {
+            if ServiceAddr(v).to_string() != n || ServiceAddr::from_str(n).ok() != Some(ServiceAddr(v)) {
+                cx.rep.disagree("consts", json!({"service": n}), "name/value table of the harness does not match the code", "-");
+            }
+        }
+        let rust_consts = format!(
+            "ISD_BITS={} ASN_BITS={} ASN_MAX={} ASN_DISPLAY_DECIMAL_MAX={} ASN_PARSE_DECIMAL_MAX={} IA_BITS={} SVC_BITS={} SVC_MULTICAST_FLAG={} PORT_BITS={} SHOW={} PARSE={} TXT_PREFIX={}",
+            Isd::BITS, Asn::BITS, Asn::MAX.0, u32::MAX, u32::MAX, IsdAsn::BITS, u16::BITS, ServiceAddr(0).to_multicast().0, u16::BITS, tab(&show), tab(&parse), "scion=v1;"
+        );
+        let m = cx.lean.ask("consts");
+        cx.rep.case("prim consts", true);
+        if cx.lean.differs(&m, &rust_consts) {
+            cx.rep.disagree("consts", json!("generated constants vs the Rust API"), &rust_consts, &m);
+        }
+        // the TXT prefix is only visible through behaviour: records without it are skipped (not modelled further)
+        cx.rep.hit("prim checks");
+    }
+
     // ---- values -------------------------------------------------------------------------------------
     let mut vals: Vec<Val> = vec![];
     for v in ISD_B { vals.push(Val::Isd(v)); }
